@@ -191,6 +191,25 @@ def _span(run: Run, fn: FuncInfo, records: List[Any]) -> None:
         for r in ("SPAN",):
             run.undecided(r, c, site, "no slice assignment into the line list follows the recording of a replacement")
         return
+    # ---- LINE-TABLE: the list that is indexed with ast line numbers must be cut at exactly the terminators the tokenizer
+    # counts (\n, \r\n, \r).  str.splitlines() also breaks at \x0b \x0c \x1c-\x1e \x85 \u2028 \u2029, all legal inside
+    # comments and string literals (form feed also between tokens): every such character before an import shifts the splice
+    # window by one "line".  split("\n") misses a lone \r.
+    tables = {ev.data["target"].key(): ev.data["target"] for _, _, ev, _ in splices if isinstance(ev.data.get("target"), V)}
+    ct = "rewrite_imports: the line table agrees with ast line numbers"
+    for tk, tv in sorted(tables.items()):
+        if "splitlines" in tk:
+            run.violated("LINE-TABLE", ct, site, f"the spliced list is {tk[:60]}: str.splitlines() breaks at more characters than the tokenizer "
+                         "counts as line ends (form feed, VT, FS/GS/RS, NEL, U+2028, U+2029)",
+                         witness='rewrite_imports("x = 1\n\x0c\nfrom district42 import schema\n", mapping) keeps the v1 import and adds a second '
+                                 'statement; with "x = \'a\x0cb\'\n..." the output is not valid Python')
+        elif "mcall(" in tk and ", split," in tk:
+            run.violated("LINE-TABLE", ct, site, f"the spliced list is {tk[:60]}: a lone \\r is a line end for ast but not for this split",
+                         witness="a module with CR-only line ends")
+        elif "readlines" in tk or "re.findall" in tk or "re.split" in tk or "tokenize" in tk:
+            run.holds("LINE-TABLE", ct, site, f"line list built by {tk[:60]}", nontrivial=True)
+        else:
+            run.undecided("LINE-TABLE", ct, site, f"line list built by {tk[:60]}: terminator set not recognised")
     cuts: Dict[str, Tuple[Term, Any, Any, str]] = {}        # key -> (slice term, path, record event, which)
     per_path = []
     for p, e, ev, node in splices:
@@ -636,6 +655,12 @@ def _emissions(run: Run, mod: Module, fn: FuncInfo, records: List[Any]) -> bool:
 
 M = "d42/migration/migrate_v1_to_v2.py"
 MUTANTS = [
+    {"name": "line table built with str.splitlines again (fix 8e3c08c reverted)", "rule": "LINE-TABLE",
+     "edits": [("d42/migration/migrate_v1_to_v2.py", "    lines = re.findall(r\"[^\\r\\n]*(?:\\r\\n|\\r|\\n)|[^\\r\\n]+\", source_code)\n", "    lines = source_code.splitlines(keepends=True)\n")]},
+    {"name": "line table built with split on \\n only", "rule": "LINE-TABLE",
+     "edits": [("d42/migration/migrate_v1_to_v2.py", "    lines = re.findall(r\"[^\\r\\n]*(?:\\r\\n|\\r|\\n)|[^\\r\\n]+\", source_code)\n", "    lines = [x + \"\\n\" for x in source_code.split(\"\\n\")]\n")]},
+    {"name": "neutral: line table read through io.StringIO(newline='')", "expect": "SILENT",
+     "edits": [("d42/migration/migrate_v1_to_v2.py", "    lines = re.findall(r\"[^\\r\\n]*(?:\\r\\n|\\r|\\n)|[^\\r\\n]+\", source_code)\n", "    import io\n    lines = io.StringIO(source_code, newline=\"\").readlines()\n")]},
     {"name": "a migration target is re-exported under `if TYPE_CHECKING:` only", "rule": "TARGETS-RESOLVE",
      "edits": [("d42/utils/__init__.py", "from ..declaration._is_ellipsis import EllipsisType, TypeOrEllipsis, is_ellipsis",
                 "from typing import TYPE_CHECKING\n\nfrom ..declaration._is_ellipsis import is_ellipsis\n\nif TYPE_CHECKING:\n    from ..declaration._is_ellipsis import EllipsisType, TypeOrEllipsis")]},
